@@ -1031,24 +1031,136 @@ fn synth_dump(rng: &mut Rng, be: bool) -> Vec<u8> {
         d = d.add_crashpad_info(ci);
     }
     if rng.chance(1, 3) {
-        let maps: &[u8] = if rng.chance(2, 3) {
-            b"00400000-00452000 r-xp 00000000 08:01 1234                       /bin/foo\n7f0000000000-7f0000021000 rw-p 00000000 00:00 0                          [stack]\nffffffffff600000-ffffffffff601000 --xp 00000000 00:00 0                  [vsyscall]\n"
+        let maps: Vec<u8> = match rng.below(4) {
+            0 => b"00400000-00452000 r-xp 00000000 08:01 1234                       /bin/foo\n7f0000000000-7f0000021000 rw-p 00000000 00:00 0                          [stack]\nffffffffff600000-ffffffffff601000 --xp 00000000 00:00 0                  [vsyscall]\n".to_vec(),
+            1 => b"00400000-00452000 r-xp 00000000 08:01 1234 /bin/foo\n7f00-7fff rw-p 0 00:00 0 [stack]\nbad line\n".to_vec(),
+            _ => maps_text(rng),
+        };
+        // half of the time the key/value text streams are grammar-generated (hostile quoting, missing
+        // separators, lone quotes, NULs, non-UTF-8, CRLF), otherwise the plain samples
+        let gen = rng.chance(1, 2);
+        let (lsb, status, limits, cpu, env) = if gen {
+            (kv_text(rng, b'=', b'\n'), kv_text(rng, b':', b'\n'), kv_text(rng, b' ', b'\n'), kv_text(rng, b':', b'\n'), kv_text(rng, b'=', 0))
         } else {
-            b"00400000-00452000 r-xp 00000000 08:01 1234 /bin/foo\n7f00-7fff rw-p 0 00:00 0 [stack]\nbad line\n"
+            (
+                b"DISTRIB_ID=Ubuntu\nDISTRIB_RELEASE=\"20.04\"\n".to_vec(),
+                b"Name:\tfoo\nPid:\t42\n".to_vec(),
+                b"Limit Soft Hard Units\nMax cpu time unlimited unlimited seconds\nx\n".to_vec(),
+                b"processor : 0\nmodel name : x\n\nmicrocode : 0x1\n".to_vec(),
+                b"A=b\0C=d\0junk\0".to_vec(),
+            )
         };
         d = d
-            .set_linux_maps(maps)
-            .set_linux_lsb_release(b"DISTRIB_ID=Ubuntu\nDISTRIB_RELEASE=\"20.04\"\n")
-            .set_linux_proc_status(b"Name:\tfoo\nPid:\t42\n")
-            .set_linux_proc_limits(b"Limit Soft Hard Units\nMax cpu time unlimited unlimited seconds\nx\n")
-            .set_linux_cpu_info(b"processor : 0\nmodel name : x\n\nmicrocode : 0x1\n")
-            .set_linux_environ(b"A=b\0C=d\0junk\0")
-            .set_soft_errors("[{\"a\":1}]");
+            .set_linux_maps(&maps)
+            .set_linux_lsb_release(&lsb)
+            .set_linux_proc_status(&status)
+            .set_linux_proc_limits(&limits)
+            .set_linux_cpu_info(&cpu)
+            .set_linux_environ(&env)
+            .set_soft_errors(*rng.pick(&["[{\"a\":1}]", "[]", "{}", "[1,2", "", "null", "[{\"a\":\"\\ud800\"}]"]));
     }
     for s in extra {
         d = d.add(s);
     }
     d.finish().unwrap_or_default()
+}
+
+/// One token of a key/value text stream: ordinary words and everything a sloppy quote/trim helper gets wrong.
+fn kv_token(rng: &mut Rng) -> Vec<u8> {
+    match rng.below(18) {
+        0 => vec![],
+        1 => b"\"".to_vec(),          // a lone quote
+        2 => b"\"\"".to_vec(),        // empty quoted string
+        3 => b"\"quoted value\"".to_vec(),
+        4 => b"\"open".to_vec(),
+        5 => b"close\"".to_vec(),
+        6 => b" \" ".to_vec(),        // lone quote surrounded by blanks (trimmed first)
+        7 => b"  padded  ".to_vec(),
+        8 => b"\t".to_vec(),
+        9 => b"caf\xc3\xa9 \xf0\x9f\xa6\x80".to_vec(),
+        10 => b"bad\xff\xfe".to_vec(),
+        11 => b"\xc3".to_vec(),       // truncated UTF-8 sequence
+        12 => vec![b'x'; rng.range(100, 5000) as usize],
+        13 => b"'".to_vec(),
+        14 => b"\"\"\"".to_vec(),
+        _ => {
+            let n = rng.range(1, 10);
+            (0..n).map(|_| b"abcXYZ019_-./ "[rng.below(14) as usize]).collect()
+        }
+    }
+}
+
+/// Text of a `key<sep>value` stream (lsb-release, environ, cpuinfo, status, limits): 0..10 lines.
+fn kv_text(rng: &mut Rng, sep: u8, eol: u8) -> Vec<u8> {
+    let mut out = vec![];
+    for _ in 0..rng.below(11) {
+        match rng.below(10) {
+            0 => {}                                   // blank line
+            1 => out.extend(kv_token(rng)),           // no separator at all
+            2 => {
+                out.push(sep);                        // empty key
+                out.extend(kv_token(rng));
+            }
+            3 => {
+                out.extend(kv_token(rng));            // empty value
+                out.push(sep);
+            }
+            4 => {
+                out.extend(kv_token(rng));            // separator repeated inside the value
+                out.push(sep);
+                out.extend(kv_token(rng));
+                out.push(sep);
+                out.extend(kv_token(rng));
+            }
+            _ => {
+                out.extend(kv_token(rng));
+                if rng.chance(1, 3) {
+                    out.extend(*rng.pick(&[&b" "[..], b"\t", b"  "]));
+                }
+                out.push(sep);
+                if rng.chance(1, 3) {
+                    out.extend(*rng.pick(&[&b" "[..], b"\t", b"  "]));
+                }
+                out.extend(kv_token(rng));
+            }
+        }
+        match rng.below(8) {
+            0 => out.extend(b"\r\n"),
+            1 => out.push(0),
+            2 if rng.chance(1, 2) => {}               // lines glued together / missing final terminator
+            _ => out.push(eol),
+        }
+    }
+    out
+}
+
+/// `/proc/<pid>/maps` text with hostile fields.
+fn maps_text(rng: &mut Rng) -> Vec<u8> {
+    let mut out = String::new();
+    let hex = |rng: &mut Rng| -> String {
+        match rng.below(10) {
+            0 => "0".into(),
+            1 => "ffffffffffffffff".into(),
+            2 => "10000000000000000".into(),
+            3 => "zz".into(),
+            4 => String::new(),
+            5 => format!("{:x}", u64::MAX - rng.below(0x2000)),
+            _ => format!("{:x}", rng.below(1 << 47)),
+        }
+    };
+    for _ in 0..rng.below(12) {
+        let (lo, hi) = (hex(rng), hex(rng));
+        let perms = *rng.pick(&["r-xp", "rw-p", "---p", "rwxs", "", "r", "rwxpp", "\u{e9}---"]);
+        match rng.below(8) {
+            0 => out.push_str(&format!("{lo}-{hi}\n")),
+            1 => out.push_str(&format!("{lo} {hi} {perms}\n")),
+            2 => out.push_str(&format!("{lo}-{hi} {perms} {} 08:01\n", hex(rng))),
+            3 => out.push_str("\n"),
+            4 => out.push_str(&format!("{lo}-{hi} {perms} {} 08:01 {} /a b/c (deleted)\r\n", hex(rng), rng.below(99999))),
+            _ => out.push_str(&format!("{lo}-{hi} {perms} {} 00:00 {} {}\n", hex(rng), rng.below(1 << 33), rng.pick(&["", "[stack]", "/lib/x.so", "[vsyscall]", "\"", "   "]))),
+        }
+    }
+    out.into_bytes()
 }
 
 /// Little hand-rolled dump writer: full control over the layout (handle descriptors of the
